@@ -303,3 +303,27 @@ SPECS["C13"] = {
     "not_covered": ["parse_path, sanitize_names_general, export_path loops; recursion of Traversable.export_samples / InfoTree.build_inner; loops inside libraries"],
     "assumptions": ["construct:PartitionParser.parse_stream assumed contract"],
 }
+
+
+# ---- contracts added after the first registration round
+_ENC = ["smpl_extract.generalized.wav:WavSampleAdapter._encode[mono]", "smpl_extract.generalized.wav:WavSampleAdapter._encode[stereo-interleaved]",
+        "smpl_extract.generalized.wav:WavSampleAdapter._encode[left-right]", "smpl_extract.generalized.wav:get_fmt_chunk_data"]
+_SF = "smpl_extract.roland.s7xx.sample_file:"
+_ROLAND_WIN = [_SF + f for f in ("_get_forward_end_params", "_get_forward_release_params", "_get_oneshot_params", "_get_forward_oneshot_params",
+                                 "_get_alternate_params", "_get_reverse_oneshot_params", "_get_reverse_loop_params", "SampleFile.to_generalized")] + \
+              ["smpl_extract.roland.s7xx.fat:RolandFileAllocationTable.get_file"]
+_AKAI_GLUE = ["smpl_extract.akai.sat:SegmentAllocationTable.get_segment"] + \
+             [f"smpl_extract.akai.sample:AkaiSample.to_generalized[loops={k}]" for k in (0, 1, 2)]
+SPECS["C01"]["contracts"] += _AKAI_GLUE + _ENC[:1] + _ENC[2:]
+SPECS["C01"]["level_text"] += ". Added: get_segment (sector stream over exactly the resolved chain), AkaiSample.to_generalized (one little-endian mono stream = the sample window, header rate), WavSampleAdapter._encode (fmt fields, chunk order, sources rewound, pass-through in whole frames / pipeline for L-R)"
+SPECS["C02"]["contracts"] += _ROLAND_WIN + _ENC[:1]
+SPECS["C02"]["level_text"] += ". Added: the seven loop-mode window functions and SampleFile.to_generalized (window = [2*start, 2*(end_mode+1)) with end_mode = release end for modes 1,3 and sustain end otherwise; sample-reversed view of width 2 for modes 5,6; rate of the frequency code), get_file (chain minus the leading cluster)"
+SPECS["C02"]["not_covered"] = ["record addressing lambdas of the *EntryConstruct declarations", "SampleFileListAdapter / per-performance collection as contracts"]
+SPECS["C04"]["contracts"] += _ENC
+SPECS["C04"]["level_text"] += ". Added: _encode hands the builder [fmt, optional smpl, data] in that order, smpl present iff a note / tuning / loop is set, fmt = (PCM, channels, rate, 8*width)"
+SPECS["C16"]["level"] = "proof"
+SPECS["C16"]["contracts"] = _ENC[:3] + ["smpl_extract.cdda.image:CompactDiskAudioImageAdapter.from_bin_cue"] + [f"lemma:passthrough_concatenation[frame={f}]" for f in (2, 4)]
+SPECS["C16"]["level_text"] = ("proved: every export rewinds every source view before building the data generator (WavSampleAdapter._encode post-condition, "
+                              "all stream shapes) - so a view's cursor left by an earlier ls/export cannot influence the bytes; from a rewound view the "
+                              "pass-through data is exactly the window (drain lemma); CDDA windows are created rewound; view reads do not depend on "
+                              "the shared handle's cursor (C11). " + SPECS["C16"]["level_text"])
